@@ -1573,7 +1573,7 @@ class BuildTarget(Target):
                     extpart = type(dep)(dep.version,
                                         compile_args=dep.get_compile_args(),
                                         link_args=dep.get_link_args(),
-                                        name=dep.name)
+                                        name=dep.name if dep.is_named() else None)
                     self.external_deps.append(extpart)
                 # Deps of deps.
                 self.add_deps(dep.ext_deps)
